@@ -65,6 +65,9 @@ type LogSpec struct {
 	Removed bool
 	// SameTx: emitted by the same transaction as the previous log of the block
 	SameTx bool
+	// TwinOfPrev: the removed twin of the previous log of the block (same transaction hash and log
+	// index, Removed, other block hash), as seen when a transaction is re-mined at the same position
+	TwinOfPrev bool
 }
 
 // NewChain creates a chain with a genesis block 0
@@ -104,6 +107,13 @@ func (c *Chain) build(parent *SimBlock, num uint64, logs []LogSpec, ts uint64) *
 	txIdx := -1
 	var txHash common.Hash
 	for i, l := range logs {
+		if l.TwinOfPrev && i > 0 {
+			tw := b.Logs[len(b.Logs)-1]
+			tw.Removed = true
+			tw.BlockHash = crypto.Keccak256Hash(b.hash[:], []byte("removed twin"))
+			b.Logs = append(b.Logs, tw)
+			continue
+		}
 		if !(l.SameTx && i > 0) {
 			txIdx++
 			txHash = l.TxHash
@@ -517,8 +527,9 @@ func SiblingView(c *Chain, salt int) []*SimBlock {
 	c.salt = uint64(1<<40) + uint64(salt)
 	for n := c.finalized + 1; n < uint64(len(c.canon)); n++ {
 		var specs []LogSpec
-		for _, l := range c.canon[n].Logs {
-			specs = append(specs, LogSpec{Address: l.Address, Topics: l.Topics, Data: l.Data, TxHash: l.TxHash, Removed: l.Removed})
+		for j, l := range c.canon[n].Logs {
+			twin := j > 0 && l.Removed && l.Index == c.canon[n].Logs[j-1].Index && l.TxHash == c.canon[n].Logs[j-1].TxHash
+			specs = append(specs, LogSpec{Address: l.Address, Topics: l.Topics, Data: l.Data, TxHash: l.TxHash, Removed: l.Removed, TwinOfPrev: twin})
 		}
 		view = append(view, c.build(view[len(view)-1], n, specs, c.canon[n].Header.Time))
 	}
@@ -575,3 +586,4 @@ func (c *Chain) forkIfUnserved(at uint64, blocks int, gen LogGen) []*SimBlock {
 	c.ev("fork(above served) at=%d oldHead=%d newHead=%d", at, old, len(c.canon)-1)
 	return out
 }
+
